@@ -324,6 +324,83 @@ func genMerge(r *rand.Rand) dockerIn {
 	return in
 }
 
-func genSelect(r *rand.Rand) dockerIn      { return genMerge(r) }
 func genLifecycle(r *rand.Rand) dockerIn   { return genMerge(r) }
 func genDeterminism(r *rand.Rand) dockerIn { return genMerge(r) }
+
+var selNames = []string{"a", "ab", "b", "web", "db-1", "x.y", ""}
+var selKeys = []string{"app", "com.docker.compose.service", "k-1", "1st", "\xc3\xa9t\xc3\xa9", "a/b", "x y", "tier", "ZONE"}
+var selKeysSan = []string{"app", "com_docker_compose_service", "k_1", "_1st", "_t_", "a_b", "x_y", "tier", "ZONE"}
+var selVals = []string{"", "a", "ab", "b", "web", "x y", "a.b", "A", "\xff", "a\nb"}
+var selBuiltins = []string{"container", "container_name", "container_id", "container_image", "container_state", "container_created", "container_command", "container_status", "container_image_id"}
+
+func genSelect(r *rand.Rand) dockerIn {
+	in := baseIn()
+	in.Shape = "log"
+	if r.Intn(6) == 0 {
+		in.Shape = "count"
+	}
+	nc := 1 + r.Intn(8)
+	for c := 1; c <= nc; c++ {
+		ctr := simpleCtr(fmt.Sprintf("id%d", c), selNames[r.Intn(len(selNames))], nil)
+		ctr.BImage = B([]string{"img", "nginx:1", "a"}[r.Intn(3)])
+		ctr.BState = B([]string{"running", "exited"}[r.Intn(2)])
+		ctr.Created = r.Intn(2000000000)
+		if S(ctr.BName) == "" {
+			ctr.NoName = r.Intn(2) == 0
+		}
+		nl := r.Intn(4)
+		used := map[int]bool{}
+		for k := 0; k < nl; k++ {
+			ki := r.Intn(len(selKeys))
+			if used[ki] {
+				continue
+			}
+			used[ki] = true
+			ctr.LabelKV = append(ctr.LabelKV, [2][]int{B(selKeys[ki]), B(selVals[r.Intn(len(selVals))])})
+		}
+		ctr.Frames = []Frame{}
+		nf := r.Intn(3)
+		for j := 0; j < nf; j++ {
+			ctr.Frames = append(ctr.Frames, Frame{Typ: 1 + r.Intn(2), TS: []int{1700000001 + j, 0}, Msg: B(fmt.Sprintf("c%d-%d", c, j+1))})
+		}
+		in.Ctrs = append(in.Ctrs, ctr)
+	}
+	nm := r.Intn(4)
+	for k := 0; k < nm; k++ {
+		var m matcherIn
+		switch r.Intn(4) {
+		case 0:
+			m.Label = B(selBuiltins[r.Intn(len(selBuiltins))])
+		case 1:
+			m.Label = B("absent_label")
+		default:
+			m.Label = B(selKeysSan[r.Intn(len(selKeysSan))])
+		}
+		m.Op = []string{"eq", "neq", "re", "nre"}[r.Intn(4)]
+		if m.Op == "eq" || m.Op == "neq" {
+			m.Val = B(selVals[r.Intn(len(selVals))])
+			if r.Intn(3) == 0 {
+				m.Val = in.Ctrs[r.Intn(nc)].BName
+			}
+			m.Re, _ = json.Marshal(&ReAST{T: "eps"})
+		} else {
+			re := genRe(r, 3, "abwex.y 1")
+			m.Val = B(re.Text())
+			m.Re, _ = json.Marshal(re)
+		}
+		in.Sel = append(in.Sel, m)
+	}
+	switch r.Intn(3) {
+	case 0:
+		in.Start, in.End = []int{1699999990, 0}, []int{1700000010, 0}
+	case 1:
+		in.Start, in.End = []int{1699999990, r.Intn(1000) * 1000000}, []int{1700000010, r.Intn(1000) * 1000000}
+	default:
+		t := []int{1700000005, r.Intn(1000) * 1000000}
+		in.Start, in.End = t, t
+		if in.Shape == "count" {
+			in.Range = 100
+		}
+	}
+	return in
+}
